@@ -1,4 +1,7 @@
 package verifsim
 
 // buildExtraControllers wires the Package and ObjectTemplate controllers (see package.go / template.go).
-func (w *World) buildExtraControllers() {}
+func (w *World) buildExtraControllers() {
+	w.buildPackageController()
+	w.buildTemplateController()
+}
